@@ -21,7 +21,7 @@ theorem reply_is_sent (a : Actor) (env : Env) (m : Message) (src : Addr) (req : 
     (hport : src.port ≠ 0) (msg : Option ApiMsg) (r : Response)
     (hr : (handleRequest a.core env src m.readOnly m.version req).2.1 = some (.response r)) :
     ∃ l, (a.step env (some (m, src)) msg).out = a.out ++ l ∧
-      ∃ x ∈ l, x.1 = src ∧ x.2.tid = m.tid ∧ x.2.mtype = .response r := by
+      ∃ x ∈ l, x.1 = src ∧ x.2.tid = m.tid ∧ x.2.mtype = .response r ∧ x.2.readOnly = !a.sockServerMode := by
   have hrecv : (a.recvPhase env.now (some (m, src))).2 = some (m, src) := by
     unfold recvPhase
     simp only [hm]
@@ -29,18 +29,20 @@ theorem reply_is_sent (a : Actor) (env : Env) (m : Message) (src : Addr) (req : 
     have : (src.port == 0) = false := by simpa using hport
     simp [this]
   obtain ⟨ro, rc, _, _⟩ := recvPhase_time a env.now (some (m, src))
-  generalize ha1 : (a.recvPhase env.now (some (m, src))).1 = a1 at ro rc hrecv
+  have hsm : (a.recvPhase env.now (some (m, src))).1.sockServerMode = a.sockServerMode := by
+    unfold recvPhase; rfl
+  generalize ha1 : (a.recvPhase env.now (some (m, src))).1 = a1 at ro rc hrecv hsm
   rw [← rc] at hr
   have hinc : ∃ l1, (a1.handleIncoming env (some (m, src))).1.out = a1.out ++ l1 ∧
-      ∃ x ∈ l1, x.1 = src ∧ x.2.tid = m.tid ∧ x.2.mtype = .response r := by
+      ∃ x ∈ l1, x.1 = src ∧ x.2.tid = m.tid ∧ x.2.mtype = .response r ∧ x.2.readOnly = !a.sockServerMode := by
     unfold handleIncoming
     simp only [hm]
     unfold handleIncomingRequest
     have hreply : ∃ y, (sendReply { a1 with core := (handleRequest a1.core env src m.readOnly m.version req).1 } src m.tid
         (handleRequest a1.core env src m.readOnly m.version req).2.1).out = a1.out ++ [y] ∧
-        y.1 = src ∧ y.2.tid = m.tid ∧ y.2.mtype = .response r := by
-      rw [hr]
-      exact ⟨_, rfl, rfl, rfl, rfl⟩
+        y.1 = src ∧ y.2.tid = m.tid ∧ y.2.mtype = .response r ∧ y.2.readOnly = !a.sockServerMode := by
+      rw [hr, ← hsm]
+      exact ⟨_, rfl, rfl, rfl, rfl, rfl⟩
     obtain ⟨y, hy, hy1, hy2, hy3⟩ := hreply
     split
     · obtain ⟨l2, e2⟩ := (populate_adv (sendReply { a1 with core := (handleRequest a1.core env src m.readOnly m.version req).1 } src m.tid
@@ -137,7 +139,8 @@ theorem node_serves_held_immutable (a : Actor) (hs : a.core.serverMode = true) (
     (hallow : a.core.allow ⟨rid, .getValue target none salt⟩ src = true)
     (hheld : a.core.server.immutable.find? target = some v) (msg : Option ApiMsg) :
     ∃ i tok ns l, (a.step env (some (m, src)) msg).out = a.out ++ l ∧
-      ∃ x ∈ l, x.1 = src ∧ x.2.tid = m.tid ∧ x.2.mtype = .response (.getImmutable i tok ns v) := by
+      ∃ x ∈ l, x.1 = src ∧ x.2.tid = m.tid ∧ x.2.mtype = .response (.getImmutable i tok ns v) ∧
+        x.2.readOnly = !a.sockServerMode := by
   obtain ⟨i, tok, ns, hr⟩ := core_serves_immutable a.core hs env src m.readOnly m.version rid target salt v hallow hheld
   obtain ⟨l, hl, hx⟩ := reply_is_sent a env m src _ hm hport msg _ hr
   exact ⟨i, tok, ns, l, hl, hx⟩
@@ -198,7 +201,8 @@ theorem node_serves_held_mutable (a : Actor) (hs : a.core.serverMode = true) (en
     (hheld : a.core.server.mutable.find? target = some item) (msg : Option ApiMsg) :
     ∃ rt tok l, (a.step env (some (m, src)) msg).out = a.out ++ l ∧
       ∃ x ∈ l, x.1 = src ∧ x.2.tid = m.tid ∧
-        x.2.mtype = .response (Server.getMutableResponse rt tok target seq (some item)) := by
+        x.2.mtype = .response (Server.getMutableResponse rt tok target seq (some item)) ∧
+        x.2.readOnly = !a.sockServerMode := by
   obtain ⟨rt, tok, hr⟩ := core_serves_mutable a.core hs env src m.readOnly m.version rid target seq salt item hallow hno hheld
   obtain ⟨l, hl, hx⟩ := reply_is_sent a env m src _ hm hport msg _ hr
   exact ⟨rt, tok, l, hl, hx⟩
